@@ -60,11 +60,34 @@ func execC16RT(c c16RTCase) Outcome {
 	sort.SliceStable(acts, func(i, j int) bool { return acts[i].at < acts[j].at })
 	start := time.Now()
 	idx := 0
+	// actual instants (the machine may be busy: classify each pair by what
+	// really happened, not by what was planned)
+	firstBegin := map[int]time.Time{}
+	firstEnd := map[int]time.Time{}
+	secondBegin := map[int]time.Time{}
+	secondEnd := map[int]time.Time{}
+	mark := func(pair int, begin bool) {
+		now := time.Now()
+		if _, seen := firstEnd[pair]; !seen {
+			if begin {
+				firstBegin[pair] = now
+			} else {
+				firstEnd[pair] = now
+			}
+			return
+		}
+		if begin {
+			secondBegin[pair] = now
+		} else {
+			secondEnd[pair] = now
+		}
+	}
 	for _, a := range acts {
 		if d := time.Until(start.Add(a.at)); d > 0 {
 			time.Sleep(d)
 		}
 		p := c.Pairs[a.pair]
+		mark(a.pair, true)
 		if a.login {
 			l := loginFor(p.N, hop{K: "login", P: p.N})
 			if err := rig.login(l); err != nil {
@@ -87,6 +110,7 @@ func execC16RT(c c16RTCase) Outcome {
 				return fail("Read exited: %v", rig.exitErr)
 			}
 		}
+		mark(a.pair, false)
 	}
 	// one more event per session at the end: emitted iff the pair is correlated
 	for _, p := range c.Pairs {
@@ -109,9 +133,20 @@ func execC16RT(c c16RTCase) Outcome {
 			return fail("session s%d event carries identity %s, want %s", s, identityKey(e.Ev), want)
 		}
 	}
-	for _, p := range c.Pairs {
+	for i, p := range c.Pairs {
 		got := perSes[sesString(p.N)]
-		inside := p.DeltaMs <= 58000
+		widest := secondEnd[i].Sub(firstBegin[i])     // upper bound of the real distance
+		narrowest := secondBegin[i].Sub(firstEnd[i]) // lower bound
+		var inside bool
+		switch {
+		case widest <= 59*time.Second:
+			inside = true
+		case narrowest >= 121*time.Second:
+			inside = false
+		default:
+			record("c16.realtime.pairs", p, Outcome{Skip: "actual_distance_in_the_unspecified_gap"})
+			continue
+		}
 		o := Outcome{NT: true, Labels: []string{fmt.Sprintf("inside_window:%v", inside), fmt.Sprintf("login_first:%v", p.LoginFirst)}}
 		record("c16.realtime.pairs", p, o)
 		if inside && got != 3 {
